@@ -3,11 +3,20 @@
 Key material lives in PyCA objects; what is verified here is the byte/token layer around it:
 
 * packet.py: every encoder emits the RFC 4251 section 5 encoding and the matching SSHPacket getter, given
-  enc(v) ++ r, returns v and leaves r  (byte, boolean, uint32, uint64, string)
-* SSHKey.export_private_key: RFC 7468 label / encryption agreement (PKCS#8, PKCS#1), OpenSSH PROTOCOL.key
-  container layout and padding 1,2,3.. to the cipher block size
-* _decode_openssh_private: the importer accepts exactly that container (check words, padding, nkeys)
-* RFC 4716 / PEM header parsers on the text the exporters write (comment loses exactly one pair of quotes)
+  pre ++ enc(v) ++ rest, returns v and leaves rest (byte, boolean, uint16/32/64, string); MPInt: bounded stand-in
+* rsa/dsa/ecdsa/eddsa encode_ssh_* / decode_ssh_*: documented field order, decode(encode(params)) == params
+* SSHKey.export_private_key: RFC 7468 label / encryption agreement (PKCS#8, PKCS#1 + RFC 1421 headers), OpenSSH
+  PROTOCOL.key container layout, padding 1,2,3.. to the cipher block size, KDF options written == KDF options used
+* SSHKey.export_public_key: OpenSSH one-line, RFC 4716 (Comment: "<c>" header), PKCS#1 / SubjectPublicKeyInfo labels
+* _decode_openssh_private (plain and encrypted), decode_ssh_public_key: acceptance exactly of the grammar
+  (nkeys, check words, padding, trailing bytes), wrong passphrase -> KeyEncryptionError, comment returned verbatim
+* _parse_rfc4716, _parse_pem, _match_next on the text the exporters write (structured symbolic input): the comment
+  loses exactly one pair of quotes, headers/body survive, the first line selects the matching decoder
+* bounded stand-ins on the real source text (extra_checks): wrap_base64/match_base64, MPInt, DER codec round trip,
+  text-level export -> _match_next -> import round trip with awkward comments
+
+Engine support used: pyvc/bstruct.py (exact structural evaluation of bytes operations on concatenation terms),
+LoopSpec(unroll=N) on while loops (exhaustive: the N+1st iteration must be infeasible), 'prop:Class.attr' inlines.
 """
 import z3
 from pyvc.contracts import *
@@ -17,10 +26,22 @@ from pyvc.builtins_model import be, unbe, iota
 from .common import PACKET_CLASSES, PACKET_INLINE, PACKET_TRUTHY
 
 ASSUMPTIONS = [
-    'PyCA parameter extraction/construction, bcrypt KDF, PBES1/PBES2 (pbe.py) and the base64 codec are assumed '
-    'contracts (stubs returning arbitrary bytes); DER encoding of the key structure is an assumed contract here',
+    'PyCA parameter extraction/construction, bcrypt KDF, PBES1/PBES2 (pbe.py), the SSH ciphers and the base64 codec '
+    'are assumed contracts (stubs returning arbitrary bytes); der_encode of the key structure is an assumed '
+    'contract inside export_*_key (the DER codec itself is covered by a bounded round-trip stand-in only)',
     'cipher block sizes are {1, 8, 16} (read from the registered cipher table, checked as data)',
     'bytes(range(lo, hi)) is the spec function iota(lo, hi) (elementwise definition instantiated at each use)',
+    'text parsers (_parse_rfc4716, _parse_pem, _match_next) are verified on input FAMILIES: the exact text the '
+    'exporters write, with comment / names / base64 body symbolic; stated format limits: an RFC 4716 comment has no '
+    'newline, base64 lines contain no blank, colon or backslash (RFC 4648 alphabet), a PEM DEK-Info cipher name / '
+    'hex IV contain no blank or colon.  Arbitrary (hostile) text is not covered by these contracts',
+    'the OpenSSH private container reader is verified on the PROTOCOL.key grammar with every field symbolic (truncated '
+    'containers only reach PacketDecodeError -> KeyImportError, which is not separately stated)',
+    'per-algorithm handlers (decode_ssh_private/public as called from the container reader) consume exactly the '
+    'blob their encoder wrote or raise PacketDecodeError; proved for rsa/dsa/ecdsa/eddsa below at token level, '
+    'assumed for sk-* keys',
+    'wrap_base64 / match_base64 (regular expression, generator) and MPInt / get_mpint (bit_length, signed '
+    'to_bytes) are outside the symbolic subset: bounded stand-ins on the real source text, NOT counted as proofs',
 ]
 
 
@@ -321,7 +342,6 @@ def openssh_post(c, want_cases=False):
         # witness for the private section: everything between the public key and the end of the container
         head = z3.Concat(B(MAGIC), sstr(B(b'none')), sstr(B(b'none')), sstr(z3.Empty(BytesS)),
                          be(z3.IntVal(4), z3.IntVal(1)), sstr(pub))
-        sect = z3.Const('c15_private_section', BytesS)
         conj += [z3.Not(P)]
         # container == head ++ string(sect) for the sect that satisfies the layout below (existential witness:
         # the bytes after the 4-byte length that follows `head`)
@@ -1333,7 +1353,8 @@ def MPInt_stub(cx):
     if isinstance(a, VOpt):
         cx.require('mpint-argument-is-not-None', z3.Not(a.isnone))
         a = a.val
-    return [Out(ret=VBytes(mpint(a.z)))]
+    t = z3.Const(fresh_name('mpint_bytes'), BytesS)
+    return [Out(ret=VBytes(t), assume=[t == mpint(a.z)])]
 
 
 MPInt_stub.modifies = ()
@@ -1480,3 +1501,9 @@ ed_dec_priv = _codec_decode('eddsa', '_EdKey', 'decode_ssh_private', ED_G,
                             [('str', 'public_value'), ('strcat', 'private_value', 'public_value')],
                             lambda g: [g['private_value']],
                             requires=lambda g: z3.Length(g['public_value']) > 0)     # 32 / 57 bytes
+
+
+# structured-input contracts: bounded work (normal runs need < 120 solver checks each)
+for _sp in list(Spec.registry):
+    if _sp.prop == 'C15' and _sp.setup is not None:
+        _sp.max_solver_checks = 600
